@@ -19,7 +19,6 @@ from typing import Any, Dict, List, Optional, Tuple
 from engine import steploop
 from engine.runner import Ctx
 from engine.tlc import MachineryError, mktemp, run_tlc, validate_batch
-from engine import wirekit
 from engine.wirekit import ByteWise, Cuts, Fixed, Whole, WireKit, parse_head, split_chunked, cut_plans
 
 # ------------------------------------------------------------------ dimensions (names = the model's values)
